@@ -344,10 +344,21 @@ impl FormattingError {
         }
     }
 
-    // (space, target)
+    // (space, target), as byte offsets into `line_buffer`
     pub(crate) fn format_len(&self) -> (usize, usize) {
         match self.kind {
-            ErrorKind::LineOverflow(found, max) => (max, found - max),
+            ErrorKind::LineOverflow(found, max) => {
+                // `found` and `max` count characters: convert them, the line may hold
+                // multi-byte characters.
+                let byte_offset = |chars: usize| {
+                    self.line_buffer
+                        .char_indices()
+                        .nth(chars)
+                        .map_or(self.line_buffer.len(), |(offset, _)| offset)
+                };
+                let start = byte_offset(max);
+                (start, byte_offset(found).saturating_sub(start))
+            }
             ErrorKind::TrailingWhitespace
             | ErrorKind::DeprecatedAttr
             | ErrorKind::BadAttr
